@@ -209,9 +209,19 @@ fn refill_negligible(f: &Family, dt: Duration) -> bool {
     })
 }
 
+thread_local! {
+    /// oracle evaluations of the replay in progress; counted only if the replay is not repeated
+    static PENDING_EVALS: std::cell::Cell<u64> = const { std::cell::Cell::new(0) };
+}
+
 fn step(cx: &Ctx, f: &Family, h: &[usize]) -> Option<(Vec<u8>, u64)> {
     for _ in 0..20 {
-        match catch(|| step_once(cx, f, h)) {
+        PENDING_EVALS.with(|c| c.set(0));
+        let r = catch(|| step_once(cx, f, h));
+        if !matches!(r, Ok(StepOut::Retry)) {
+            cx.distinct.evals_add(PENDING_EVALS.with(|c| c.get()));
+        }
+        match r {
             Ok(StepOut::Retry) => {
                 cx.run.info("replays_repeated_because_elapsed_time_made_refill_non_negligible");
                 continue;
@@ -248,7 +258,7 @@ fn step_once(cx: &Ctx, f: &Family, h: &[usize]) -> StepOut {
         let got_rank = rank(f, op, &res[i]);
         let hist = || json!({"config": f.cfg_json(), "history": h[..=i].iter().map(|&o| f.op_json(o)).collect::<Vec<_>>(), "answers": res[..=i]});
         if last {
-            cx.distinct.eval();
+            PENDING_EVALS.with(|c| c.set(c.get() + 1));
             cx.distinct.outcome(&(f.name, f.cfg_name.clone(), res[i].clone(), stages.iter().map(|(b, _)| rb.get(b).map(|x| x.taken).unwrap_or(0)).collect::<Vec<_>>()));
         }
         let Some(got_rank) = got_rank else {
@@ -310,7 +320,7 @@ fn step_once(cx: &Ctx, f: &Family, h: &[usize]) -> StepOut {
             if !refill_negligible(f, t2.elapsed()) {
                 return StepOut::Retry;
             }
-            cx.distinct.eval();
+            PENDING_EVALS.with(|c| c.set(c.get() + 1));
             let with_x = rank(f, h[n - 1], &res[n - 1]);
             let without_x = rank(f, h[n - 1], &res2[n - 2]);
             if with_x > without_x {
@@ -494,10 +504,16 @@ fn main() {
                 step(&cx, f, h)
             },
             |a, b| {
-                run.machinery_error(format!(
-                    "canonicalisation mismatch in family {} {}: histories {:?} and {:?} have equal per-bucket pass/refuse counts but answer the probe differently",
-                    f.name, f.cfg_name, a, b
-                ));
+                // Budgets are a function of what was charged to each bucket (refill is negligible here, see
+                // refill_negligible); two histories with equal charges that answer the same probe differently mean a
+                // budget depends on something else (e.g. refill faster than max/window, or a refusal changing it).
+                run.violation_lazy("C14.state", feats(&[("entry", f.entry().into()), ("shape", "equal-charges-different-answers".into())]), || {
+                    (
+                        json!({"config": f.cfg_json(), "history_1": a.iter().map(|&o| f.op_json(o)).collect::<Vec<_>>(), "history_2": b.iter().map(|&o| f.op_json(o)).collect::<Vec<_>>(),
+                               "probe": "after each history every operation of the alphabet is attempted once, in alphabet order; the answer vectors differ"}),
+                        format!("{}: two histories with equal per-bucket pass/refuse counts answer the same probe differently (budget depends on more than the charged admissions + bounded refill)", f.entry()),
+                    )
+                });
             },
         );
         all.push((fi, stats));
@@ -547,6 +563,7 @@ fn main() {
             "refill during an untimed replay is bounded by the measured elapsed time (< 0.25 token on every bucket, else the replay is repeated), so expected answers are exact; timed histories use interval bounds from measured times and judge admissions only".into(),
             "a refusal in a bucket's own name while fewer than min(burst, max) admissions were ever charged to that bucket is reported as C14.indep (its budget was consumed by something other than its own admitted requests); refusals attributed to the shared global or wider-prefix bucket are by design".into(),
             "a refused attempt that consumed tokens of earlier stages (global, /64) is not a violation: the statement only forbids a denied attempt increasing a budget (C14.nogrow, one-step differential on the real object)".into(),
+            "C14.state: two histories with equal per-bucket pass/refuse counts must answer the same probe equally (budgets depend only on charged admissions + bounded refill)".into(),
             "LRU eviction at 100 000 keys and window roll-over after 1 h / 1 min are outside the horizon; the 400 ms-window timed configuration covers roll-over of the fixed window".into(),
             "loom part: Engine::global Mutex, Engine::keyed RwLock (parking_lot -> shim over loom::sync::RwLock) and Arc are loom objects in a re-bound copy of the working tree's rate_limit.rs; Instant::now() is the real clock".into(),
         ],
